@@ -1022,6 +1022,7 @@ def run_impl(case):
              "group_by_expr_as": int(any(e is not None and n is not None for n, e in group_items(q))),
              "order_by_unselected_key": int(any(e[0] == "v" and e[1] in [n for n, _ in group_items(q)] and
                                                 ["v", e[1]] not in q["proj"] for e, _d in q["order"]))}
+    stats["order_by_twin_of_held_aggregate"] = int(bool(q.get("twin")))
     ntime = sum(1 for r in case["rows"] for c in r if c is not None and c[0] in "TY")
     stats["cases_with_dateTime_or_date"] = int(ntime > 0)
     stats["cases_with_nondyadic_double"] = int(any(c is not None and c[0] == "F" and Fraction(float(dec_lex(c[1], c[2]))) != Fraction(c[1], 10 ** c[2])
@@ -1320,11 +1321,13 @@ def gen_term(rng, profile, bn_ok):
             return ["F"] + list(rng.choice(DBLS))
         if r < 0.96:
             return ["F"] + list(rng.choice(DBLS)) + ["float"]
-        return ["I", rng.choice([1, 2, 3]), rng.choice(["int", "unsignedInt", "short"])]
+        # derived integer datatypes, with the boundary value 0 of the non-negative ones (mutant C08-5: `>= 0` -> `> 0` in
+        # term._well_formed_non_negative_integer made "0"^^xsd:nonNegativeInteger ill-typed, i.e. no longer a number)
+        return ["I", rng.choice([0, 1, 2, 3, 0]), rng.choice(["int", "unsignedInt", "short", "nonNegativeInteger", "nonNegativeInteger"])]
     if profile == "str":
         if r < 0.85:
             return ["S", rng.choice(STRS), ""]
-        return ["S", rng.choice(["a", "b"]), rng.choice(["en", "fr", "en", "fr", "EN"])]
+        return ["S", rng.choice(["a", "b"]), rng.choice(["en", "fr", "en", "de", "EN", "EN"])]
     if profile == "dbl":  # doubles (now and then a float / decimal / integer): binary64 sums, left to right
         if r < 0.8:
             return ["F"] + list(rng.choice(DBLS))
@@ -1357,7 +1360,7 @@ def gen_term(rng, profile, bn_ok):
     if r < 0.92 and bn_ok:
         return ["N", rng.choice(BNS)]
     if r < 0.96:
-        return ["S", rng.choice(["a", "b"]), rng.choice(["en", "fr", "en", "fr", "EN"])]
+        return ["S", rng.choice(["a", "b"]), rng.choice(["en", "fr", "en", "de", "EN", "EN"])]
     # (derived integer datatypes stay in the purely numeric columns: next to strings Literal.__gt__ is not
     #  transitive — known finding C08-K1, exercised by its witness — and then the answer depends on the sort algorithm)
     return ["I", rng.choice(INTS)]
@@ -1529,6 +1532,24 @@ def gen_query(rng, vars_, names, profiles, pa=0.05):
                 q["order"].append([e, rng.random() < 0.4])
             elif pool:
                 q["order"].append([rng.choice(pool), rng.random() < 0.4])
+        if q["group"] and rng.random() < 0.15:
+            # a fixed share: ORDER BY on the TWIN of an aggregate that SELECT / HAVING already hold — same function and
+            # argument, the other DISTINCT-ness (or another GROUP_CONCAT separator).  translateAggregates must collect it as
+            # an aggregate of its own (seeded C08-4 / C08-10 re-used the collected one and ordered by the wrong value).
+            held = [x for p in q["proj"] if p[0] == "e" for x in _aggs_in(p[1])] + _aggs_in(q["having"])
+            held = [x for x in held if x[1] in ("COUNT", "SUM", "AVG", "GROUP_CONCAT")]
+            if not held:
+                x = ["agg", rng.choice(["COUNT", "COUNT", "SUM"]), rng.random() < 0.5, ["v", rng.choice(names)], None]
+                q["proj"].append(["e", x, "w"])
+                held = [x]
+            x = rng.choice(held)
+            if x[1] == "GROUP_CONCAT" and rng.random() < 0.5:
+                twin = ["agg", x[1], x[2], x[3], rng.choice([s_ for s_ in (None, "|", ", ", "") if s_ != x[4]])]
+            else:
+                twin = ["agg", x[1], not x[2], x[3], x[4]]
+            q["order"].insert(0, [twin, rng.random() < 0.5])
+            q["order"] = q["order"][:3]
+            q["twin"] = True
     else:
         cols = rng.sample(vars_, rng.randint(1, len(vars_)))
         for c in cols:
